@@ -255,9 +255,18 @@ def oracle(p, r):
         per_stage.setdefault(s, []).append(a)
     # index-driven stages (slices) deliberately visit their input in selection order and may repeat positions
     expect = stage_inputs(p) if not (INDEX_DRIVEN & set(ops_of(p))) else {}
+    # a batch / zip row that `catch` drops because one of its parts failed is abandoned at that part: the rest of it is
+    # never evaluated, so below a catch the calls are a subsequence (in order, nothing twice) of the stage's input
+    skipping = 'catch' in ops_of(p)
+
+    def in_order(args, want):
+        if not skipping:
+            return args == want[:len(args)]
+        it = iter(want)
+        return all(any(a == w for w in it) for a in args)
     for s, args in per_stage.items():
         want = expect.get(s)
-        if want is not None and args != want[:len(args)]:
+        if want is not None and not in_order(args, want):
             fails.append(('not_once_in_source_order', {'stage': s, 'called_with': args, 'stage_input_sequence': want}))
     # ds[i] applies the functions only to the examples that make up that one result, once each: in an
     # indexable pipeline without index-driven stages the i-th step of an iteration does exactly that work
@@ -505,10 +514,10 @@ def run(rep):
     for _ in range(n_api):
         w = rng.choice([1, 2, 3])
         nn = rng.choice([3, 5, 8, 12])
-        cfg = {'via': rng.choice(['parmap', 'parmap', 'prefetch', 'batchmap']), 'w': w, 'b': w + rng.choice([0, 0, 1, 2]),
+        cfg = {'via': rng.choice(['parmap', 'parmap', 'prefetch', 'batchmap', 'prefetch_catch']), 'w': w, 'b': w + rng.choice([0, 0, 1, 2]),
                'items': [rng.randint(0, 9) for _ in range(nn)], 'ending': None, 'fm': 0, 'fr': 0, 'fcls': 'UserA',
                'stop': rng.choice([1, 2, 3, None]), 'with_items': rng.random() < 0.6}
-        if cfg['via'] == 'prefetch' and w == 1:
+        if cfg['via'] in ('prefetch', 'prefetch_catch') and w == 1:
             cfg['w'], cfg['b'] = 2, 2
         c = concrun.api_case(cfg, sched.RandomChooser(rng.randrange(1 << 30)))
         for cl, det in concrun.oracle(c, ('C07',)):
